@@ -309,6 +309,9 @@ func PSyncContinue(c *core.Ctx, rule string) {
 			v, isC := core.IntConst(info, be.Y)
 			good = isC && v == 1
 		}
+		if off != inOff && IsObj(info, inOff)(ret.Results[1]) {
+			good = true // the untouched parameter is the last received offset
+		}
 		// the decrement is only right when the increment happened; -1 never gets +CONTINUE
 		c.Check(rule, fmt.Sprintf("SendPSyncContinue/continue-returns-received#%d", n), ret.Pos(), good,
 			fmt.Sprintf("on +CONTINUE the function must return the offset of the last byte already received (sent offset - 1), found `%s`: the caller stores it as the base of all later offsets, so ACKs and checkpoints would be off by one", c.Src(ret.Results[1])))
